@@ -229,8 +229,11 @@ func (t *ctrial) newSub(kind, target string, paths [][]string, when string) *csu
 	defer t.mu.Unlock()
 	s := &csub{Idx: len(t.subs), Kind: kind, Target: target, Paths: paths, When: when, done: make(chan struct{})}
 	sl := &pb.SubscriptionList{Prefix: &pb.Path{Target: target}, Mode: pb.SubscriptionList_STREAM}
-	if kind == "star-once" {
+	switch kind {
+	case "star-once":
 		sl.Mode = pb.SubscriptionList_ONCE
+	case "x-poll", "star-poll":
+		sl.Mode = pb.SubscriptionList_POLL
 	}
 	for _, p := range paths {
 		sl.Subscription = append(sl.Subscription, &pb.Subscription{Path: gen.Path(false, p...)})
@@ -626,6 +629,13 @@ func concTrial(r *vlib.Run, trial int, rng *rand.Rand) {
 			early = append(early, t.newSub(kind, tg, t.streamPaths(kind), "early"))
 		}
 	}
+	// POLL subscribers, attached and answered once before the operation.
+	if rng.Intn(3) == 0 {
+		early = append(early, t.newSub("x-poll", t.x, [][]string{{croots[rng.Intn(3)]}, {sentRoot}}, "early"))
+	}
+	if rng.Intn(4) == 0 {
+		early = append(early, t.newSub("star-poll", "*", [][]string{{croots[rng.Intn(3)]}, {sentRoot}}, "early"))
+	}
 	leadKind := []string{"x-stream", "star-stream"}[rng.Intn(2)]
 	if t.tmode == "registering" {
 		leadKind = "x-stream"
@@ -970,6 +980,66 @@ func concTrial(r *vlib.Run, trial int, rng *rand.Rand) {
 		}
 		r.Count("conc_subscriptions_judged", 1)
 		switch {
+		case s.Kind == "x-poll" || s.Kind == "star-poll":
+			// The system is quiescent: one poll trigger.
+			gone := s.Kind == "x-poll" && t.op == "remove"
+			before := s.st.NSent()
+			nsync := countSync(s.st.Sent())
+			s.st.Push(&pb.SubscribeRequest{Request: &pb.SubscribeRequest_Poll{Poll: &pb.Poll{}}})
+			got, ended, timedOut := s.wait(func(sent []*pb.SubscribeResponse) bool { return countSync(sent) > nsync })
+			if timedOut {
+				t.stuck("a POLL subscription neither answered a trigger nor ended within the watchdog")
+				return
+			}
+			sent := s.st.Sent()
+			switch {
+			case gone && !ended:
+				t.fail(s, "remove-poll-stream-left-open", fmt.Sprintf("its target was removed, the next poll trigger was answered (%d responses) and the RPC is still open; want the RPC to end with OK", len(sent)-before))
+				return
+			case gone && s.err != nil:
+				t.fail(s, "remove-poll-stream-status", fmt.Sprintf("ended with status %v after its target was removed, want OK", s.err))
+				return
+			case gone && dataOf(sent[before:], t.x) > 0:
+				t.fail(s, "remove-poll-stream-data", fmt.Sprintf("was sent %d updates of the removed target after the removal", dataOf(sent[before:], t.x)))
+				return
+			case gone:
+				r.Count("conc_x_poll_ended_ok_on_trigger_after_remove", 1)
+			case ended || !got:
+				t.fail(s, "poll-stream-ended", fmt.Sprintf("ended with status %v on a poll trigger although its target is known", s.err))
+				return
+			default:
+				// The answered round is exactly the cache content it selects.
+				sh := replayLog(sent[before:])
+				want := map[string]*pb.Notification{}
+				for _, tg := range live {
+					if !s.covers(tg) {
+						continue
+					}
+					t.c.Query(tg, []string{"*"}, func(p []string, _ *ctree.Leaf, v interface{}) error {
+						if n, ok := v.(*pb.Notification); ok && s.selects(p) {
+							want[model.Key(append([]string{tg}, p...))] = n
+						}
+						return nil
+					})
+				}
+				bad := ""
+				for k, wn := range want {
+					g := sh.M[k]
+					if g == nil || g.GetTimestamp() != wn.GetTimestamp() {
+						bad = fmt.Sprintf("%s: round has %s, cache holds %s", strings.Join(model.Unkey(k), "/"), renderNoti(g), renderNoti(wn))
+					}
+				}
+				for k := range sh.M {
+					if want[k] == nil {
+						bad = fmt.Sprintf("%s reported but not selected from the cache (removed target: %v)", strings.Join(model.Unkey(k), "/"), t.op == "remove" && model.Unkey(k)[0] == t.x)
+					}
+				}
+				if bad != "" {
+					t.fail(s, "poll-round-mismatch", "the round answered after the operation and quiescence differs from the cache content it selects: "+bad)
+					return
+				}
+				r.Count("conc_poll_round_after_operation_compared", 1)
+			}
 		case s.Kind == "star-once":
 			if !waitChan(s.done, cwatchdog) {
 				t.stuck("a ONCE query did not end within the watchdog")
